@@ -4,6 +4,7 @@ import (
 	"bytes"
 	"errors"
 	"fmt"
+	"os"
 	"time"
 
 	"github.com/KevoDB/kevo/pkg/common/log"
@@ -333,7 +334,12 @@ func ExecWrite(e *engine.EngineFacade, o Op) ExecResult {
 	return ExecResult{Err: fmt.Errorf("not a write op: %s", o.K)}
 }
 
+var noScribble = os.Getenv("KEVOSIM_NOSCRIBBLE") != ""
+
 func scribbleBytes(bufs ...[]byte) {
+	if noScribble {
+		return
+	}
 	for _, b := range bufs {
 		for i := range b {
 			b[i] ^= 0x5a
